@@ -304,3 +304,49 @@ Proof.
       * now apply (SU_child _ x Ss).
       * apply (SU_child _ x Sab). apply in_or_app. now right.
 Qed.
+
+(* ------------------------------------------------------------------ *)
+Lemma rows_cut_perm pq f a X b o : get_ch pq f = Some (a ++ X ++ b) ->
+  Permutation (rows o f) (rows (owner pq f o) X ++ rows o (upd_ch pq (fun _ => a ++ b) f)).
+Proof.
+  intros G. destruct (upd_ch_context pq f o _ G) as (A & B & E1 & E2). rewrite E2, E1, !rows_app.
+  repeat rewrite <- app_assoc. rewrite !(app_assoc A (rows (owner pq f o) a)). apply Permutation_app_swap_app.
+Qed.
+
+Lemma ids_single s : ids [s] = ids_t s.
+Proof. unfold ids, ids_t. cbn. now rewrite app_nil_r. Qed.
+
+Lemma rows_single o s : rows o [s] = rows_t o s.
+Proof. cbn. now rewrite app_nil_r. Qed.
+
+(* SUB-STEP: re-link a branch of the same tree under another (or the same) parent *)
+Lemma WF_relink t q0 a s b pq tch1 nb :
+  WF t -> get_ch q0 (forest_of t) = Some (a ++ s :: b) ->
+  let f1 := upd_ch q0 (fun _ => a ++ b) (forest_of t) in
+  get_ch pq f1 = Some tch1 -> ~ In (rdid s) (map rdid tch1) ->
+  WF (set_forest t (upd_ch pq (place nb s) f1))
+  /\ Permutation (ids (forest_of t)) (ids (upd_ch pq (place nb s) f1)).
+Proof.
+  intros H G f1 G1 Hn. set (f := forest_of t) in *. set (f2 := upd_ch pq (place nb s) f1).
+  assert (P1 := rows_cut_perm q0 f a [s] b 0 G). fold f1 in P1. rewrite rows_single in P1.
+  assert (P2 := rows_insert_perm pq f1 tch1 0 nb s G1). fold f2 in P2.
+  assert (Pi : Permutation (ids f) (ids f2)).
+  { rewrite <- (rows_ids f 0), <- (rows_ids f2 0). rewrite (Permutation_map r_id P1), (Permutation_map r_id P2).
+    rewrite !map_app, !rows_t_ids. reflexivity. }
+  assert (Pk : Permutation (keys f) (keys f2)).
+  { rewrite <- (rows_keys' f 0), <- (rows_keys' f2 0). rewrite (Permutation_map r_key P1), (Permutation_map r_key P2).
+    rewrite !map_app, !rows_t_keys. reflexivity. }
+  split; [|exact Pi].
+  destruct H as [H1 H2 H3 H4 H5 H6 H7]. fold f in H1, H2, H3, H6, H7.
+  eapply WF_intro; [reflexivity| | | | |].
+  - apply (Permutation_NoDup Pi H1).
+  - intros Y. apply H2. now apply (Permutation_in _ (Permutation_sym Pi)).
+  - now rewrite H3.
+  - apply (IdxOK_perm _ (keys f)); [now repeat split|exact Pk].
+  - assert (Sl := SU_get q0 f _ H7 G).
+    assert (S1 : SU f1). { unfold f1. apply (SU_upd q0 f (a ++ s :: b)); auto. now apply SU_remove in Sl. }
+    unfold f2. rewrite (upd_ch_const pq f1 tch1 _ G1). apply (SU_upd pq f1 tch1); auto.
+    destruct (place_split nb s tch1) as (a1 & b1 & E & ->). subst tch1. apply SU_insert; auto.
+    + now apply (SU_get pq f1).
+    + apply (SU_child _ s Sl). apply in_or_app. right. now left.
+Qed.
